@@ -63,6 +63,30 @@ def hook(params):
         LOG.extend(saved)
 
 
+# hooks need not be plain functions: any callable the module exposes under the given name will do
+import functools
+
+
+def _hook_with_prefix(prefix, params):
+    hook(params)
+
+
+hook_partial = functools.partial(_hook_with_prefix, "p")
+
+
+class _HookObject:
+    def __call__(self, params):
+        hook(params)
+
+    def method(self, params):
+        hook(params)
+
+
+hook_instance = _HookObject()
+hook_method = _HookObject().method
+HOOK_NAMES = {"def": "hook", "partial": "hook_partial", "instance": "hook_instance", "method": "hook_method"}
+
+
 # a second module with classes and hooks of the SAME names (decoding from separate files in one process)
 _alt = types.ModuleType("vf_c18_alt")
 exec('''
@@ -106,7 +130,7 @@ class Dec(D.Decoder):
 def _describe(mod, ns, ng, hooks, nums, prios, wins, completing_hook=None, special=None):
     """description dict + the event sequence the documented lifecycle prescribes for it"""
     def H(name):
-        d = {"func": "hook", "module": mod, "params": {"name": name}}
+        d = {"func": HOOK_NAMES[hx.P.get("hook_kind", "def")], "module": mod, "params": {"name": name}}
         if completing_hook == name:
             d["params"]["complete"] = True
         if special and special[0] == name:
@@ -335,6 +359,7 @@ def obligations(tier):
             else:
                 parts.append({"s": s, "g": g, "G": G})
     parts += [{"s": 1, "g": 1, "G": 1, "mod": "vf_c18_alt"}]
+    parts += [{"s": 1, "g": 1, "G": 1, "hook_kind": hk} for hk in ("partial", "instance", "method")]
     # a hook completes the model during decoding: later hooks must still receive the model
     parts += [{"s": 2, "g": 1, "G": 1, "completing": "pre_s0", "hm": [False, True]}, {"s": 1, "g": 1, "G": 1, "completing": "post_s0"}]
     # a hook replaces the model's environment / decodes another description with the same decoder object
